@@ -41,6 +41,9 @@ class Shape:
         if self.perms is not None:
             return self.perms
         f = self.node.flags
+        if self.fam == "far":
+            # chumsky's reading first: a rejecting try_map supersedes the failures inside the match it rejects
+            return [4, 0] if "try_map" in f else [0]
         ps = [0]
         if "sep_trail" in f:
             ps = [0, 1]
@@ -107,7 +110,7 @@ pub fn {sh.name}_body<S: Src>(s: &mut S) {{
     elif sh.fam == "far_found":
         body = f"    crate::fam_far_found!(\"{prop_label}\", p, AST, x, t);\n"
     elif sh.fam == "far":
-        body = f"    crate::fam_far!(\"{prop_label}\", p, AST, x, t);\n"
+        body = f"    crate::fam_far!(\"{prop_label}\", p, AST, x, t, [{perms}]);\n"
     elif sh.fam == "pair":
         body = f"    let _ = &AST;\n    let q = {sh.node2.rs};\n    crate::fam_pair!(\"{prop_label}\", p, q, x, {aa});\n"
     elif sh.fam == "check_mode":
